@@ -99,6 +99,21 @@ def check_tree(case, ctx):
             ctx.check(got == exp, "query/wrong-indices", lambda: (
                 "intervals=%r query=%r expected=%r got=%r" % (ivs, q, exp, r)))
 
+    if queries:
+        # the returned lists belong to the caller: editing them in place must
+        # not change later answers (history on one tree object)
+        for r in res:
+            if isinstance(r, list):
+                r.append(-7)
+                r.reverse()
+        again = tree.query(queries)
+        for q, r in zip(queries, again):
+            exp = [i for i, iv in enumerate(ivs) if overlaps(iv, q)]
+            ctx.check(sorted(int(x) for x in r) == exp,
+                      "query/answer-changed-after-caller-edited-result",
+                      lambda: "intervals=%r query=%r expected=%r got=%r" % (
+                          ivs, q, exp, r))
+
     points = [conv(kind, p) for p in case["points"]]
     if points:
         res = tree.query_points(points)
@@ -110,6 +125,16 @@ def check_tree(case, ctx):
             any_miss |= len(exp) < n
             ctx.check(got == exp, "query_points/wrong-indices", lambda: (
                 "intervals=%r point=%r expected=%r got=%r" % (ivs, p, exp, r)))
+        for r in res:
+            if isinstance(r, list):
+                r.append(-7)
+        again = tree.query_points(points)
+        for p, r in zip(points, again):
+            exp = [i for i, iv in enumerate(ivs) if iv[0] <= p <= iv[1]]
+            ctx.check(sorted(int(x) for x in r) == exp,
+                      "query_points/answer-changed-after-caller-edited-result",
+                      lambda: "intervals=%r point=%r expected=%r got=%r" % (
+                          ivs, p, exp, r))
 
     for m in case["members"]:
         if m["as"] == "scalar":
@@ -198,7 +223,9 @@ def check_match(case, ctx):
             root = box.mkdir("set%d" % k)
             pop = G.make_population(root, spec["template"], spec["files"])
             pops.append(pop)
-            sets.append(FileSet(pop.path, name="set%d" % k))
+            sets.append(FileSet(pop.path, name="set%d" % k,
+                                placeholder=G.user_placeholder_arg(
+                                    spec["template"])))
         start, end = case["start"], case["end"]
         mi = case["max_interval"]
         if mi is None:
@@ -262,6 +289,11 @@ def check_match(case, ctx):
         # labels / non-triviality
         if expected and any(len(ps) < len(exp2) for _, ps in expected):
             ctx.nontrivial = True
+        for pop_ in pops:
+            by_name = sorted(pop_.files, key=lambda f: f.path)
+            if [(f.t0, f.t1) for f in by_name] != sorted(
+                    (f.t0, f.t1) for f in by_name):
+                ctx.label("dir-order!=time-order")
         if len(expected) < len(exp1):
             ctx.label("primary-without-partner")
         if any(len(ps) >= 2 for _, ps in expected):
